@@ -1170,6 +1170,8 @@ def main(outfile):
     py2lean_fsm.main_fsm(os.path.join(os.path.dirname(outfile), 'TranslatedFsm.lean'), sys.modules[__name__])
     import py2lean_init                                          # separate module: InitAsync.init_regular (C05)
     py2lean_init.main_init(os.path.join(os.path.dirname(outfile), 'TranslatedInit.lean'), sys.modules[__name__])
+    import py2lean_persist                                       # separate module: persistence code paths (C06)
+    py2lean_persist.main(os.path.join(os.path.dirname(outfile), 'TranslatedPersist2.lean'), sys.modules[__name__])
 
 
 if __name__ == '__main__':
